@@ -42,10 +42,62 @@ REVERT_TARGETS = {
 }
 
 
+_BASE_SIGS = {}
+_BASE_LOCK = __import__("threading").Lock()
+
+
+def base_signatures(rev: str, cid: str, tier: str):
+    """signatures the check reports on the UNPATCHED revision `rev` (defects repaired since) - cached"""
+    with _BASE_LOCK:
+        if (rev, cid) in _BASE_SIGS:
+            return _BASE_SIGS[(rev, cid)]
+    base = "/dev/shm" if os.path.isdir("/dev/shm") else "/var/tmp"
+    w = tempfile.mkdtemp(prefix="verif-base-", dir=base)
+    try:
+        assert subprocess.run(f"git -C /repo archive {rev} src pyproject.toml | tar -x -C {w}", shell=True).returncode == 0
+        env = dict(os.environ, VERIF_REPO=w, VERIF_EVIDENCE_DIR=os.path.join(w, "evidence"),
+                   VERIF_REPLAY_DIR=os.path.join(w, "replay"), PYTHONHASHSEED="0", VERIF_JOBS="4")
+        r = subprocess.run([PY, "-m", f"checks.{cid.lower()}", "--tier", tier], cwd=str(VERIF), env=env, capture_output=True, timeout=3600)
+        sigs = {l.strip()[10:].split("  ")[0] for l in r.stdout.decode(errors="replace").splitlines() if l.startswith("  signature=")}
+    finally:
+        shutil.rmtree(w, ignore_errors=True)
+    with _BASE_LOCK:
+        _BASE_SIGS[(rev, cid)] = sigs
+    return sigs
+
+
+def newest_rev_where_applies(patch: str):
+    """the newest /repo revision on which the patch applies without fuzz (None if there is none)"""
+    revs = subprocess.check_output("git -C /repo rev-list HEAD", shell=True, text=True).split()
+    base = "/dev/shm" if os.path.isdir("/dev/shm") else "/var/tmp"
+    for rev in revs[1:]:
+        w = tempfile.mkdtemp(prefix="verif-rev-", dir=base)
+        try:
+            if subprocess.run(f"git -C /repo archive {rev} src | tar -x -C {w}", shell=True).returncode != 0:
+                continue
+            if subprocess.run(["patch", "-p1", "-s", "-F0", "--dry-run", "-d", w, "-i", patch], capture_output=True).returncode == 0:
+                return rev[:7]
+        finally:
+            shutil.rmtree(w, ignore_errors=True)
+    return None
+
+
 def build(work: str, mut) -> str:
     shutil.copytree("/repo/src", os.path.join(work, "src"))
     if "patch" in mut:
-        p = subprocess.run(["patch", "-p1", "-s", "-d", work, "-i", mut["patch"]], capture_output=True)
+        # no fuzz: a hunk that only fits somewhere else (dead code after a later refactoring) is not this mutant
+        p = subprocess.run(["patch", "-p1", "-s", "-F0", "-d", work, "-i", mut["patch"]], capture_output=True)
+        if p.returncode != 0 and "seeded" in mut["name"] and not mut.get("base_rev"):
+            mut["base_rev"] = newest_rev_where_applies(mut["patch"])
+        if p.returncode != 0 and mut.get("base_rev"):
+            # a seeded change whose context a later fix rewrote: build it on the revision it was confirmed against
+            shutil.rmtree(os.path.join(work, "src"))
+            for junk in glob.glob(os.path.join(work, "**", "*.rej"), recursive=True) + glob.glob(os.path.join(work, "**", "*.orig"), recursive=True):
+                os.remove(junk)
+            assert subprocess.run(f"git -C /repo archive {mut['base_rev']} src | tar -x -C {work}", shell=True).returncode == 0
+            p = subprocess.run(["patch", "-p1", "-s", "-F0", "-d", work, "-i", mut["patch"]], capture_output=True)
+            if p.returncode == 0:
+                mut["built_on"] = mut["base_rev"]
         if p.returncode != 0:
             return "patch does not apply: " + (p.stdout.decode() + p.stderr.decode())[-200:]
     else:
@@ -87,8 +139,15 @@ def run_one(mut, tier: str, suite: bool):
                                capture_output=True, timeout=3600)
             lines = r.stdout.decode(errors="replace").splitlines()
             sigs = [l.strip()[10:].split("  ")[0] for l in lines if l.startswith("  signature=")]
-            res["checks"][cid] = {"rc": r.returncode, "nviol": sum(1 for l in lines if l.startswith("VIOLATION")),
-                                  "sigs": sigs[:3]}
+            nviol = sum(1 for l in lines if l.startswith("VIOLATION"))
+            rc = r.returncode
+            if mut.get("built_on"):
+                bs = base_signatures(mut["built_on"], cid, tier)
+                sigs = [x for x in sigs if x not in bs]
+                nviol = len(sigs)
+                rc = 1 if sigs else 0
+                res["suite"] = (res["suite"] + f" [on {mut['built_on']}]").strip()
+            res["checks"][cid] = {"rc": rc, "nviol": nviol, "sigs": sigs[:3]}
         return res
     finally:
         shutil.rmtree(work, ignore_errors=True)
@@ -121,8 +180,10 @@ def main() -> int:
             if str(mm.get("note", "")).startswith("SUPERSEDED"):
                 continue        # neutralised by a later fix; see its meta.json
             for pf in sorted(glob.glob(os.path.join(d, "patch*.diff"))):
+                if pf.endswith(".orig.diff"):
+                    continue        # kept for the record only; the rebased patch.diff is the mutant
                 muts.append({"name": "seeded_" + os.path.basename(d) + "_" + os.path.basename(pf)[:-5],
-                             "checks": mm.get("detected_by") or [mm["property"]], "patch": pf})
+                             "checks": mm.get("detected_by") or [mm["property"]], "patch": pf, "base_rev": mm.get("base_rev")})
     if a.only:
         muts = [m for m in muts if a.only in m["name"] or a.only in ",".join(m["checks"])]
     results = []
